@@ -41,7 +41,7 @@ SIZES = {"quick": (32000, 320), "thorough": (500000, 5008)}
 NSHARDS = {"quick": 16, "thorough": 64}
 
 REQUIRED = (
-    ["ops:%d" % i for i in range(5)]
+    ["ops:%d" % i for i in range(6)]
     + ["mnemonic:.cond"]
     + ["reg:" + c for c in ("gpr", "fp", "vec", "vec-elem", "sve", "sve-bare", "pred-bare", "pred/m", "pred/z", "pred.shape", "zr", "sp", "upper-case")]
     + ["list:list", "list:range", "list:list+index", "list:range+index", "list-of:vec", "list-of:vec-elem", "list-of:sve"]
